@@ -47,7 +47,14 @@ struct Case {
     /// the full nodes are this many blocks ahead of the last state they announced (and proved):
     /// they answer filters, hashes and check points from their own tip
     ahead: u64,
+    /// the peers start at this height and move to the tip of the chain (announcing it) once the
+    /// client has synced that far: the client then follows the tip in "latest" mode while
+    /// further check points become final
+    grow_from: Option<u64>,
 }
+
+/// the height the peers grow to at the first quiescent point (0: no growth); set by `new_sim`
+static GROW_TO: std::sync::atomic::AtomicU64 = std::sync::atomic::AtomicU64::new(0);
 
 fn new_sim(env: &Env, case: &Case, old: Option<Sim>) -> Sim {
     let cfg = ClientCfg { last_n: 3, max_outbound: case.max_outbound, cp_interval: 4, ..Default::default() };
@@ -57,9 +64,10 @@ fn new_sim(env: &Env, case: &Case, old: Option<Sim>) -> Sim {
     }
     let mut world = World::new(chains, cfg.cp_interval);
     for p in 1..=case.n_peers {
-        world.add_peer(p, 0, case.chain.tip_number() - case.ahead);
+        world.add_peer(p, 0, case.grow_from.unwrap_or(case.chain.tip_number() - case.ahead));
         world.peer_mut(p).ahead = case.ahead;
     }
+    GROW_TO.store(if case.grow_from.is_some() { case.chain.tip_number() } else { 0 }, std::sync::atomic::Ordering::SeqCst);
     if case.liar_from.is_some() {
         for p in (case.n_peers + 1 - case.n_liars.max(1))..=case.n_peers {
             world.peer_mut(p).filter_chain = Some(1);
@@ -98,6 +106,15 @@ fn run_until(sim: &mut Sim, kind: &str, k: usize) -> bool {
             sim.advance(10);
             sim.tick_all();
             idle += 1;
+            let grow_to = GROW_TO.load(std::sync::atomic::Ordering::SeqCst);
+            if idle > 3 && grow_to > 0 && sim.world.peers.iter().any(|p| p.connected && p.height < grow_to) {
+                let ids: Vec<usize> = sim.world.peers.iter().filter(|p| p.connected && p.height < grow_to).map(|p| p.id).collect();
+                for id in ids {
+                    sim.set_view(id, 0, grow_to, true);
+                }
+                idle = 0;
+                continue;
+            }
             if idle > 6 {
                 return false;
             }
@@ -315,7 +332,7 @@ fn authentic_prefix(case: &Case, min_filtered: u64, data: &[u8]) -> u64 {
 
 /// The message is authentic in its filters (over the prefix the client can accept) but attributes
 /// a height to another block: returns the kind of the foreign hash.
-fn misattribution(case: &Case, min_filtered: u64, data: &[u8]) -> Option<&'static str> {
+fn misattribution(case: &Case, min_filtered: u64, proven_tip: u64, data: &[u8]) -> Option<&'static str> {
     let m = parse(data)?;
     let start: u64 = m.start_number().unpack();
     let prefix = authentic_prefix(case, min_filtered, data);
@@ -323,7 +340,8 @@ fn misattribution(case: &Case, min_filtered: u64, data: &[u8]) -> Option<&'stati
     for (i, h) in m.block_hashes().into_iter().enumerate().take(prefix as usize) {
         let number = start + i as u64;
         if case.chain.blocks[number as usize].hash() != h {
-            if case.chain.number_of(&h).is_some() {
+            // (a block of the chain beyond what is proven so far is no proven-chain block yet)
+            if case.chain.number_of(&h).map(|n| n <= proven_tip).unwrap_or(false) {
                 return Some("authentic-filters-with-hash-of-another-proven-chain-block");
             }
             kind = Some("authentic-filters-with-hash-not-on-the-proven-chain");
@@ -331,6 +349,8 @@ fn misattribution(case: &Case, min_filtered: u64, data: &[u8]) -> Option<&'stati
     }
     kind
 }
+
+const LONG_WORLD: usize = usize::MAX;
 
 pub(crate) fn run(opts: &Opts, report: &mut Report) {
     let thorough = opts.thorough();
@@ -353,6 +373,13 @@ pub(crate) fn run(opts: &Opts, report: &mut Report) {
             }
         }
     }
+    // a growing world: the client catches up at block 10, then the peers move to block 24 (check
+    // points become final while the client follows the tip in "latest" mode)
+    items.push((LONG_WORLD, 1, 3, 2000, 2, "BlockFilters"));
+    if thorough {
+        items.push((LONG_WORLD, 4, 5, 2000, 2, "BlockFilters"));
+        items.push((LONG_WORLD, 1, 3, 2000, 3, "BlockFilters"));
+    }
     // full nodes three blocks ahead of the state they proved: only the honest history is run; the
     // filtered height and the scripts' block numbers must never pass the proven tip, whatever
     // the answers offer beyond it
@@ -365,8 +392,16 @@ pub(crate) fn run(opts: &Opts, report: &mut Report) {
         let env = Env::dummy();
         let (wi, si, batch, hashes_batch, max_outbound, target) = items[item / SLICES];
         let slice = item % SLICES;
-        let ws = c03::worlds(&env);
-        let (wname, chain) = &ws[wi];
+        let mut ws = c03::worlds(&env);
+        if wi == LONG_WORLD {
+            // a chain long enough for check points to become final while the client follows the tip
+            let mut c = crate::verif::world::Chain::new(std::sync::Arc::clone(&env.consensus), scen::wavy_plan(5));
+            let mut acts = scen::std_acts();
+            acts.extend([(14, scen::Act::Mine('A')), (17, scen::Act::Move('A', 'B')), (19, scen::Act::Mine('B')), (22, scen::Act::Move('B', 'A'))]);
+            scen::extend_chain(&mut c, &env.scripts, 24, &acts);
+            ws.push(("W-long24-grow".to_owned(), c));
+        }
+        let (wname, chain) = &ws[wi.min(ws.len() - 1)];
         let sets = c03::script_sets(&env, chain.tip_number());
         let (sname, regs) = &sets[si];
         let fork_at = chain.tip_number().saturating_sub(5).max(1);
@@ -385,6 +420,7 @@ pub(crate) fn run(opts: &Opts, report: &mut Report) {
             n_liars: 0,
             rng_seed: 0,
             ahead: if target == "Ahead" { 3 } else { 0 },
+            grow_from: if wi == LONG_WORLD { Some(10) } else { None },
         };
         if target == "Ahead" {
             if slice != 0 {
@@ -508,7 +544,7 @@ pub(crate) fn run(opts: &Opts, report: &mut Report) {
                         let m0 = sim.c().storage.get_min_filtered_block_number();
                         let allowed = authentic_prefix(&case, m0, data);
                         let root = if target == "BlockFilters" {
-                            misattribution(&case, m0, data)
+                            misattribution(&case, m0, sim.c().tip_number(), data)
                         } else {
                             // filter hashes between two finalized check points are cached from a
                             // single peer; beyond the last finalized one they need the quorum
@@ -624,6 +660,7 @@ pub(crate) fn run(opts: &Opts, report: &mut Report) {
                         n_liars,
                         rng_seed: seed,
                         ahead: 0,
+                        grow_from: None,
                     };
                     runs += 1;
                     *by_class.entry("consistent-liar".to_owned()).or_insert(0) += 1;
@@ -752,6 +789,7 @@ pub(crate) fn debug_case() {
         n_liars: getn("C06_LIARS", 1) as usize,
         rng_seed: getn("C06_SEED", 0),
         ahead: getn("C06_AHEAD", 0),
+        grow_from: None,
     };
     let want_class = std::env::var("C06_CLASS").unwrap_or("drop-one-filter-and-hash".into());
     let want_label = std::env::var("C06_LABEL").unwrap_or("#2".into());
